@@ -37,3 +37,30 @@ if os.environ.get("GPYTORCH_VERIF_TRACE"):
 
     for _c in (los._feature_flag, los._value_context, los._dtype_value_context):
         _wrap(_c)
+
+
+    # optimizer steps change parameters in place: a global version change for CacheTrace.tla
+    import torch
+
+    def _wrap_opt(cls):
+        if getattr(cls, "_verif_wrapped", False):
+            return
+        ostep = cls.step
+
+        @functools.wraps(ostep)
+        def step(self, *a, **k):
+            r = ostep(self, *a, **k)
+            _verif.emit("params_changed", cls=type(self).__name__)
+            return r
+        cls.step = step
+        cls._verif_wrapped = True
+
+    for _o in (torch.optim.SGD, torch.optim.Adam, torch.optim.LBFGS):
+        _wrap_opt(_o)
+
+
+def pytest_runtest_setup(item):
+    """pytest plugin hook: mark test boundaries in the recorded trace"""
+    if os.environ.get("GPYTORCH_VERIF_TRACE"):
+        from gpytorch import _verif as v
+        v.emit("test_begin", name=item.nodeid)
